@@ -28,11 +28,19 @@ from .grammar import DialectGraph, Grammar, field
 
 UNBOUNDED = "UNBOUNDED"
 WIDEN = 12
-ZERO: FrozenSet[int] = frozenset((0,))
-BOTTOM: FrozenSet[int] = frozenset()
+# A value is a set of pairs (flat, nested): ``flat`` = net of the metas in the match's own
+# (flattened) insert list, ``nested`` = net of the metas kept inside class-wrapped child
+# matches.  ``nested`` is non-zero only below classes that are substituted (pair computation):
+# a Bracketed that does not forward its content's inserts drops ``flat`` but keeps ``nested``.
+ZERO: FrozenSet[Tuple[int, int]] = frozenset(((0, 0),))
+BOTTOM: FrozenSet[Tuple[int, int]] = frozenset()
 
 
 # -- the value domain ---------------------------------------------------------------------
+
+
+def flat(k: int):
+    return frozenset(((int(k), 0),))
 
 
 def vjoin(a, b):
@@ -56,14 +64,39 @@ def vsum(a, b):
         return b
     if b == ZERO:
         return a
-    s = frozenset(x + y for x in a for y in b)
+    s = frozenset((x[0] + y[0], x[1] + y[1]) for x in a for y in b)
     return UNBOUNDED if len(s) > WIDEN else s
+
+
+def nest(v):
+    """The value as seen through a class wrapper / child match: everything becomes nested."""
+    if v is UNBOUNDED or v == ZERO or not v:
+        return v
+    return frozenset((0, f + n) for f, n in v)
+
+
+def drop_flat(v):
+    if v is UNBOUNDED or v == ZERO or not v:
+        return v
+    return frozenset((0, n) for _, n in v)
+
+
+def totals(v):
+    """Set of net totals of a value (UNBOUNDED stays UNBOUNDED)."""
+    if v is UNBOUNDED:
+        return UNBOUNDED
+    return frozenset(f + n for f, n in v)
+
+
+def balanced(v) -> bool:
+    return v is not UNBOUNDED and all(f + n == 0 for f, n in v)
 
 
 def vshow(v) -> str:
     if v is UNBOUNDED:
         return "unbounded"
-    return "{" + ", ".join(f"{x:+d}" if x else "0" for x in sorted(v)) + "}"
+    t = v if not v or not isinstance(next(iter(v)), tuple) else totals(v)
+    return "{" + ", ".join(f"{x:+d}" if x else "0" for x in sorted(t)) + "}"
 
 
 # -- kinds ----------------------------------------------------------------------------------
@@ -174,16 +207,22 @@ def sccs(n_nodes: int, succ) -> List[List[int]]:
 
 
 class Failure:
-    """An obligation that fails *at a node* (repeated unbalanced element ...)."""
+    """An obligation that fails *at a node* (repeated unbalanced element ...).
 
-    __slots__ = ("node", "what", "element", "value", "assignment")
+    ``flat_only``: the drifting metas are all in the element's own (flattened) insert list;
+    below a Bracketed that does not forward its content's inserts they are dropped, so the
+    failure does not count there.
+    """
 
-    def __init__(self, node: int, what: str, element: Optional[int], value, assignment):
+    __slots__ = ("node", "what", "element", "value", "assignment", "flat_only")
+
+    def __init__(self, node: int, what: str, element: Optional[int], value, assignment, flat_only: bool):
         self.node = node
         self.what = what
         self.element = element
         self.value = value
         self.assignment = assignment
+        self.flat_only = flat_only
 
 
 class Balance:
@@ -215,16 +254,17 @@ class Balance:
         self.keys: List[Tuple[str, ...]] = []
         for ci, comp in enumerate(self.comps):
             ks: Set[str] = set()
-            inside = set(comp)
             for i in comp:
                 if self.role[i] == "conditional":
                     ks.update((self.nodes[i].get("config_rules") or {}).keys())
                 for c in self._succ[i]:
-                    if c not in inside:
-                        ks.update(self.keys[self.comp_of[c]])
+                    cc = self.comp_of[c]
+                    if cc != ci:
+                        ks.update(self.keys[cc])
             self.keys.append(tuple(sorted(ks)))
         self._values: Dict[Tuple[int, Tuple[bool, ...]], Dict[int, object]] = {}
         self._fails: Dict[Tuple[int, Tuple[bool, ...]], List[Failure]] = {}
+        self._anyfail: Dict[Tuple[int, Tuple[bool, ...]], bool] = {}
         self.evaluations = 0
 
     # -- graph -----------------------------------------------------------------------------
@@ -242,54 +282,71 @@ class Balance:
         if r == "segment":
             mg = n.get("match_grammar")
             return (mg,) if mg is not None else ()
-        if r == "sequence":
-            return tuple(n.get("elements") or ())
+        if r in ("sequence", "anynumberof"):
+            return tuple(self._usable(n.get("elements") or ()))
         if r == "bracketed":
-            out = list(n.get("elements") or ()) if self.forward_content else []
+            out = list(self._usable(n.get("elements") or ()))
             for k in ("start_bracket", "end_bracket"):
                 if n.get(k) is not None:
-                    out.append(n[k])
+                    out += self._usable((n[k],))
             return tuple(out)
         if r == "delimited":
-            out = list(n.get("elements") or ())
+            out = list(self._usable(n.get("elements") or ()))
             if n.get("delimiter") is not None:
-                out.append(n["delimiter"])
+                out += self._usable((n["delimiter"],))
             return tuple(out)
-        if r == "anynumberof":
-            return tuple(n.get("elements") or ())
         return ()
+
+    def _usable(self, els: Iterable[int]) -> List[int]:
+        """Elements whose value is looked up (classes only when substituted, never bare metas)."""
+        out = []
+        for e in els:
+            er = self.role[e]
+            if er == "meta" or (er == "segment" and e not in self.inline):
+                continue
+            out.append(e)
+        return out
 
     def keys_below(self, i: int) -> Tuple[str, ...]:
         return self.keys[self.comp_of[i]]
 
+    def _key(self, ci: int, assignment: Dict[str, bool]):
+        return (ci, tuple(bool(assignment.get(k, False)) for k in self.keys[ci]))
+
     # -- evaluation --------------------------------------------------------------------------
     def value(self, i: int, assignment: Dict[str, bool]):
         """Abstract value of node ``i`` under ``assignment`` (a dict covering keys_below(i))."""
-        ci = self.comp_of[i]
-        return self._comp_values(ci, assignment)[i]
+        return self._comp_values(self.comp_of[i], assignment)[i]
 
     def failures(self, i: int, assignment: Dict[str, bool]) -> List[Failure]:
-        """Node-level obligation failures in the inline graph below ``i``."""
-        seen: Set[int] = set()
+        """Node-level obligation failures in the inline graph below ``i`` that survive the
+        dropping of flat inserts by enclosing Bracketed grammars."""
+        self._comp_values(self.comp_of[i], assignment)
+        if not self._anyfail.get(self._key(self.comp_of[i], assignment)):
+            return []
+        seen: Set[Tuple[int, bool]] = set()
         out: List[Failure] = []
-        stack = [self.comp_of[i]]
+        stack: List[Tuple[int, bool]] = [(i, False)]
         while stack:
-            ci = stack.pop()
-            if ci in seen:
+            j, dropped = stack.pop()
+            if (j, dropped) in seen or (dropped and (j, False) in seen):
                 continue
-            seen.add(ci)
-            key = (ci, tuple(bool(assignment.get(k, False)) for k in self.keys[ci]))
-            self._comp_values(ci, assignment)
-            out += self._fails.get(key, ())
-            inside = set(self.comps[ci])
-            for n in self.comps[ci]:
-                for c in self._succ[n]:
-                    if c not in inside:
-                        stack.append(self.comp_of[c])
+            seen.add((j, dropped))
+            for f in self._fails.get(self._key(self.comp_of[j], assignment), ()):
+                if f.node == j and not (dropped and f.flat_only):
+                    out.append(f)
+            n = self.nodes[j]
+            if self.role[j] == "bracketed" and not self.forward_content:
+                content = set(self._usable(n.get("elements") or ()))
+                for c in self._succ[j]:
+                    stack.append((c, dropped or c in content))
+            else:
+                for c in self._succ[j]:
+                    stack.append((c, dropped))
         return out
 
     def _comp_values(self, ci: int, assignment: Dict[str, bool]) -> Dict[int, object]:
-        key = (ci, tuple(bool(assignment.get(k, False)) for k in self.keys[ci]))
+        key = self._key(ci, assignment)
         got = self._values.get(key)
         if got is not None:
             return got
@@ -299,21 +356,20 @@ class Balance:
         visited: Set[int] = set()
         while todo:
             c, done = todo.pop()
-            k = (c, tuple(bool(assignment.get(x, False)) for x in self.keys[c]))
             if done:
                 order.append(c)
                 continue
-            if k in self._values or c in visited:
+            if c in visited or self._key(c, assignment) in self._values:
                 continue
             visited.add(c)
             todo.append((c, True))
-            inside = set(self.comps[c])
             for n in self.comps[c]:
                 for s in self._succ[n]:
-                    if s not in inside:
-                        todo.append((self.comp_of[s], False))
+                    cs = self.comp_of[s]
+                    if cs != c:
+                        todo.append((cs, False))
         for c in order:
-            k = (c, tuple(bool(assignment.get(x, False)) for x in self.keys[c]))
+            k = self._key(c, assignment)
             if k not in self._values:
                 self._solve(c, k, assignment)
         return self._values[key]
@@ -322,15 +378,14 @@ class Balance:
         comp = self.comps[ci]
         vals: Dict[int, object] = {i: BOTTOM for i in comp}
         fails: List[Failure] = []
-        inside = set(comp)
         cyclic = len(comp) > 1 or comp[0] in self._succ[comp[0]]
+        comp_of = self.comp_of
 
         def look(j: int):
-            if j in inside:
+            cj = comp_of[j]
+            if cj == ci:
                 return vals[j]
-            cj = self.comp_of[j]
-            kj = (cj, tuple(bool(assignment.get(x, False)) for x in self.keys[cj]))
-            return self._values[kj][j]
+            return self._values[self._key(cj, assignment)][j]
 
         rounds = 0
         while True:
@@ -342,6 +397,8 @@ class Balance:
                 v = self._transfer(i, look, assignment, fails)
                 if v is not UNBOUNDED and vals[i] is not UNBOUNDED:
                     v = vjoin(v, vals[i])
+                elif vals[i] is UNBOUNDED:
+                    v = UNBOUNDED
                 if v != vals[i]:
                     vals[i] = v
                     changed = True
@@ -354,6 +411,17 @@ class Balance:
         self._values[key] = vals
         if fails:
             self._fails[key] = fails
+        below = bool(fails)
+        if not below:
+            for i in comp:
+                for c in self._succ[i]:
+                    cc = comp_of[c]
+                    if cc != ci and self._anyfail.get(self._key(cc, assignment)):
+                        below = True
+                        break
+                if below:
+                    break
+        self._anyfail[key] = below
 
     def conditional_value(self, n: dict, assignment: Dict[str, bool]):
         rules = n.get("config_rules") or {}
@@ -361,7 +429,7 @@ class Balance:
         if not enabled:
             return ZERO
         m = n.get("cond_meta")
-        return frozenset((int(field(self.nodes[m], "indent_val")),)) if m is not None else ZERO
+        return flat(field(self.nodes[m], "indent_val")) if m is not None else ZERO
 
     def _seq(self, elements: Sequence[int], look, assignment) -> object:
         total = ZERO
@@ -369,7 +437,7 @@ class Balance:
             er = self.role[e]
             en = self.nodes[e]
             if er == "meta":
-                b = frozenset((int(field(en, "indent_val")),))
+                b = flat(field(en, "indent_val"))
             elif er == "conditional":
                 b = self.conditional_value(en, assignment)
             else:
@@ -389,29 +457,36 @@ class Balance:
         if er == "meta":
             # a bare meta outside a Sequence is never matched (MetaSegment.match raises)
             return ZERO
+        if er in ("parser", "anything", "other"):
+            return ZERO
+        if er == "nothing":
+            return BOTTOM
         return look(e)
 
     def _transfer(self, i: int, look, assignment, fails: List[Failure]):
         n = self.nodes[i]
         r = self.role[i]
         if r == "ref":
-            s = self._succ[i]
-            return look(s[0]) if s else ZERO
+            t = self.d.library.get(n.get("ref"))
+            return self._use(t, look) if t is not None else ZERO
         if r == "segment":
+            # the class wrapper keeps every insert of its grammar inside the new segment
             mg = n.get("match_grammar")
-            return self._use_grammar(mg, look) if mg is not None else ZERO
+            return nest(self._use(mg, look)) if mg is not None else ZERO
         if r == "conditional":
             return self.conditional_value(n, assignment)
         if r == "sequence":
             return self._seq(n.get("elements") or (), look, assignment)
         if r == "bracketed":
-            v = frozenset((self.bracket_net,))
+            v = flat(self.bracket_net)
             for k in ("start_bracket", "end_bracket"):
                 if n.get(k) is not None:
-                    v = vsum(v, self._use(n[k], look))
-            if self.forward_content:
-                v = vsum(v, self._seq(n.get("elements") or (), look, assignment))
-            return v
+                    # the bracket matches are kept as child matches (their inserts survive)
+                    v = vsum(v, nest(self._use(n[k], look)))
+            content = self._seq(n.get("elements") or (), look, assignment)
+            if not self.forward_content:
+                content = drop_flat(content)
+            return vsum(v, content)
         if r in ("delimited", "anynumberof"):
             els = list(n.get("elements") or ())
             once = r == "anynumberof" and n.get("max_times") == 1
@@ -419,23 +494,21 @@ class Balance:
                 out = BOTTOM
                 for e in els:
                     out = vjoin(out, self._use(e, look))
-                return out if (out is UNBOUNDED or out) else (ZERO if not els else BOTTOM)
-            ok = True
+                return out
             parts = [(e, "element") for e in els]
             if r == "delimited" and n.get("delimiter") is not None:
                 parts.append((n["delimiter"], "delimiter"))
             for e, what in parts:
                 b = self._use(e, look)
-                if b is UNBOUNDED or (b and b != ZERO):
-                    ok = False
-                    fails.append(Failure(i, what, e, b, dict(assignment)))
+                if not balanced(b):
+                    flat_only = b is not UNBOUNDED and all(nn == 0 for _, nn in b)
+                    fails.append(Failure(i, what, e, b, dict(assignment), flat_only))
             # a failing node is reported where it is; upwards it counts as balanced so that
             # one defect gives one report
             return ZERO
+        if r == "nothing":
+            return BOTTOM
         return ZERO
-
-    def _use_grammar(self, mg: int, look):
-        return self._use(mg, look)
 
 
 def assignments(keys: Sequence[str]) -> List[Dict[str, bool]]:
